@@ -507,7 +507,7 @@ pub fn main(ctx: &Ctx) {
     ctx.assume("queries whose lanes quantise to the same in-range 16-bit values are the same cache key by documented design; out-of-range (saturating) lanes are not");
     ctx.assume("schedule part (searcher || writer, parts race_pairs / race_programs): scheduling points are lock operations and API-call boundaries; Euclidean line set-up with a unique exact top-k");
     run_committed_replays(ctx, &C07);
-    run_pbt(ctx, &C07, ctx.tier.pick(4_000, 120_000));
+    run_pbt(ctx, &C07, ctx.tier.pick(60_000, 1_200_000));
     super::c07s::main(ctx);
 }
 
